@@ -39,7 +39,8 @@ type MultiStatus struct {
 var statusRe = regexp.MustCompile(`^HTTP/[0-9]\.[0-9] ([0-9]{3}) (.*)$`)
 
 func parseStatus(s string) (int, error) {
-	m := statusRe.FindStringSubmatch(strings.TrimSpace(s))
+	// exact: the reason phrase may be empty (RFC 7230 section 3.1.2), the SP in front of it may not be missing
+	m := statusRe.FindStringSubmatch(s)
 	if m == nil {
 		return 0, fmt.Errorf("status %q is not 'HTTP-version SP 3DIGIT SP reason'", s)
 	}
